@@ -57,9 +57,15 @@ func (r *scriptReader) Read(p []byte) (int, error) {
 		e.data = e.data[n:]
 		r.delivered += n
 		if len(e.data) == 0 {
-			// the error comes with the last byte; it stays pending until a call reports it alone
+			// the error comes with the last byte.  io.ReadFull drops it when this call has filled p completely
+			// (n >= min): it then stays pending until a call reports it alone; otherwise io.ReadFull reports it
+			// now, and the reader goes on with its next event (an error is reported once: Retry.lean, fillR)
 			err := e.err
-			r.evs[0] = ev{kind: 'f', err: err}
+			if n == len(p) {
+				r.evs[0] = ev{kind: 'f', err: err}
+			} else {
+				r.evs = r.evs[1:]
+			}
 			return n, err
 		}
 		return n, nil
@@ -147,6 +153,27 @@ func implRdscript(p *vproto.Parser) string {
 	}
 	b.WriteString(last)
 	return strings.TrimSpace(b.String())
+}
+
+// rdretry <cls> <geom> | <events...>: wkb.Read on a scripted reader that fails before or inside a first encoding and
+// then delivers a complete one; wkb.Read is called a second time on the same reader.
+func implRdretry(p *vproto.Parser) string {
+	for p.Next() != "|" {
+	}
+	rd := &scriptReader{evs: parseEvents(p.T[p.I:])}
+	var b strings.Builder
+	if g, err := wkb.Read(rd); err != nil {
+		b.WriteString(errClass(err))
+	} else {
+		fmt.Fprintf(&b, "ok %s", vproto.GeomToks(g))
+	}
+	b.WriteString(" then ")
+	if g, err := wkb.Read(rd); err != nil {
+		b.WriteString(errClass(err))
+	} else {
+		fmt.Fprintf(&b, "ok %s @%d", vproto.GeomToks(g), rd.delivered)
+	}
+	return b.String()
 }
 
 // decbatch <k> | <bo> <geom> ...: every value is encoded, all encodings are decoded (wkb.Decode and hex.Decode),
@@ -455,6 +482,11 @@ func genStream(out *bufio.Writer, r *vproto.Rng, n int) {
 	}
 	// several values on one stream behind scripted readers (cut and failed by the Lean prep stage from the
 	// independent serializer's bytes)
+	// a reader that fails before or inside one encoding and then delivers a complete one: wkb.Read twice (rdretry,
+	// built by the Lean prep stage from the independent serializer's bytes)
+	for i := 0; i < n/15; i++ {
+		fmt.Fprintf(out, "rdretrymix %d %s %s\n", r.U64()%1000000007, vproto.GeomToks(small()), vproto.GeomToks(small()))
+	}
 	for i := 0; i < n/6; i++ {
 		k := r.Range(1, 3)
 		fmt.Fprintf(out, "rdmix %d %d", r.U64()%1000000007, k)
